@@ -8,8 +8,8 @@
    of a fix breaks a pin here.  The `*_variant_refuted` lemmas show that the statements are false for
    the plain string-prefix tests / the two-test filter the code had before. *)
 From PV Require Import Base.Prelude Model.Paths Model.Include Model.Require Model.FilesInst
-  Model.RequireWalk Spec.PathSpec Proofs.PathProofs Proofs.IncludeProofs Proofs.RequireProofs
-  Proofs.RequireWalkProofs Proofs.IncludeHolds Instances.HoldsC12.
+  Model.RequireWalk Spec.PathSpec Spec.LoadPathSpec Proofs.PathProofs Proofs.IncludeProofs Proofs.RequireProofs
+  Proofs.RequireGeneral Proofs.RequireWalkProofs Proofs.IncludeHolds Instances.HoldsC12.
 
 (* the posixpath model computes reference locations: abspath / normpath do not move a path *)
 Theorem C12_abspath_location : forall cwd p,
@@ -95,17 +95,107 @@ Theorem C12_include_prefix_variant_refuted :
 Proof. exact include_prefix_variants_refuted. Qed.
 Print Assumptions C12_include_prefix_variant_refuted.
 
-(* require(): whatever string passes the filter, every candidate _locate_require_file hands to
-   os.path.isfile (hence the file it opens) lies under the directory named by its load-path pattern
-   (relative patterns: relative to the directory of the requiring file), for every load path made of
-   patterns DIR/NAME?SUFFIX (pattern_saneb; the load path is the user's configuration, not the cart's) *)
+(* require(), ANY load path: whatever string passes the filter of _evaluate_require, whatever the pattern (any
+   number of "?", any components, absolute or relative), the requiring file and the working directory: every
+   candidate _locate_require_file hands to os.path.isfile (hence the file it opens) lies under the directory
+   the pattern text designates (Spec/LoadPathSpec.v).  [pattern_root base pat] is a function of the pattern
+   and the requiring file's directory alone - not of the require string: the directory part of the pattern
+   in front of its first "?" ([pattern_dir]: relative patterns relative to the requiring file's directory,
+   the pattern's own ".." resolved), with [pattern_climb pat] levels removed, where the climb is the worst
+   case of the rest of the pattern: a literal ".." goes up; a component with "?" goes up only if it is ".?",
+   "?." or "??" (which require(".") turns into ".."), and counts as a level gained unless it is "?" or ends
+   in "?." / "?.." (which "." , "a/." , "a/" turn into "." or "x/..").  No hypothesis on the pattern or on the
+   instantiated path. *)
+Theorem C12_require_contained_general : forall cwd file_path lua_path req p,
+  require_filter_now req = true ->
+  In p (require_candidates_now file_path lua_path req) ->
+  exists pat, In pat (split_on 59 lua_path) /\ under cwd (pattern_root (dirname file_path) pat) p.
+Proof. exact candidates_contained_general. Qed.
+Print Assumptions C12_require_contained_general.
+
+(* ... per candidate, for any base directory *)
+Theorem C12_require_candidate_under_root : forall cwd base pat req,
+  require_filter_now req = true ->
+  under cwd (pattern_root base pat) (candidate 63 base req pat).
+Proof. exact candidate_under_root_now. Qed.
+Print Assumptions C12_require_candidate_under_root.
+
+(* ... where that directory is: the location of pattern_dir without its last pattern_climb names *)
+Theorem C12_require_root_location : forall cwd base pat,
+  locate cwd (pattern_root base pat)
+  = firstn (length (locate cwd (pattern_dir base pat)) - pattern_climb pat) (locate cwd (pattern_dir base pat)).
+Proof. exact root_location. Qed.
+Print Assumptions C12_require_root_location.
+
+(* the usual patterns DIR/NAME?SUFFIX (pattern_saneb: one "?", NAME <> ".", no ".." in SUFFIX, SUFFIX's first
+   component <> ".") have climb 0: their root is pattern_dir itself ... *)
+Theorem C12_require_sane_climb0 : forall pat,
+  pattern_saneb pat = true -> pattern_climb pat = 0%nat /\ forall base, pattern_root base pat = pattern_dir base pat.
+Proof. exact sane_climb0_root. Qed.
+Print Assumptions C12_require_sane_climb0.
+
+(* ... so the statement for sane load paths is a corollary of the general one (proved that way) *)
 Theorem C12_require_contained : forall cwd file_path lua_path req p,
   require_filter_now req = true ->
   forallb pattern_saneb (split_on 59 lua_path) = true ->
   In p (require_candidates_now file_path lua_path req) ->
   exists pat, In pat (split_on 59 lua_path) /\ under cwd (pattern_dir (dirname file_path) pat) p.
-Proof. exact candidates_contained. Qed.
+Proof. exact candidates_contained_from_general. Qed.
 Print Assumptions C12_require_contained.
+
+(* ... and so is the same statement for every load path whose patterns have climb 0 (decidable from the
+   pattern text; also several placeholders: ?/?.lua, lib/?/?.lua) *)
+Theorem C12_require_contained_flat : forall cwd file_path lua_path req p,
+  require_filter_now req = true ->
+  forallb pattern_flatb (split_on 59 lua_path) = true ->
+  In p (require_candidates_now file_path lua_path req) ->
+  exists pat, In pat (split_on 59 lua_path) /\ under cwd (pattern_dir (dirname file_path) pat) p.
+Proof. exact candidates_contained_flat. Qed.
+Print Assumptions C12_require_contained_flat.
+
+(* what is false: beyond climb 0 a candidate need not lie under pattern_dir - "??" with require(".") names the
+   parent directory although the pattern contains no "." at all - and the place reached is NOT a function of
+   the pattern and the number of components of the string: ?/../x with "a" / "." and x?../../y with "a/b" /
+   "a/" (same number of components) end inside / outside the requiring file's directory.  For seven patterns
+   of climb 1-2 require(".") reaches a place that is not under the directory one level below pattern_root:
+   the count cannot be lowered for them. *)
+Theorem C12_require_natural_refuted :
+  (exists pat req p, require_filter_now req = true /\ contains [46] pat = false /\
+     In p (require_candidates_now g_main pat req) /\ underb g_cwd (pattern_dir g_base pat) p = false)
+  /\ (exists pat r1 r2 p1 p2, require_filter_now r1 = true /\ require_filter_now r2 = true /\
+        length (components r1) = length (components r2) /\
+        In p1 (require_candidates_now g_main pat r1) /\ In p2 (require_candidates_now g_main pat r2) /\
+        underb g_cwd (pattern_dir g_base pat) p1 = true /\ underb g_cwd (pattern_dir g_base pat) p2 = false)
+  /\ (exists pat r1 r2 p1 p2, require_filter_now r1 = true /\ require_filter_now r2 = true /\
+        length (components r1) = 2%nat /\ length (components r2) = 2%nat /\
+        In p1 (require_candidates_now g_main pat r1) /\ In p2 (require_candidates_now g_main pat r2) /\
+        underb g_cwd (pattern_dir g_base pat) p1 = true /\ underb g_cwd (pattern_dir g_base pat) p2 = false).
+Proof. exact natural_containment_refuted. Qed.
+Print Assumptions C12_require_natural_refuted.
+
+(* what IS a function of the pattern and the number of components: for strings made of proper names only
+   (every component a name: not empty, not "."; e.g. a, a/b, lib/util.x) the kinds of the candidate's components
+   are determined by the pattern and that number k, so the candidate lies exactly [fst (plain_profile pat k)] levels
+   above pattern_dir's location and then [snd (plain_profile pat k)] names below *)
+Theorem C12_require_plain_location : forall cwd base pat req,
+  require_filter_now req = true -> Forall (fun c => comp_kind c = 2) (components req) ->
+  let D := locate cwd (pattern_dir base pat) in
+  let mh := plain_profile pat (length (components req)) in
+  exists names, locate cwd (candidate 63 base req pat) = firstn (length D - fst mh) D ++ names
+                /\ length names = snd mh.
+Proof. exact plain_candidate_location. Qed.
+Print Assumptions C12_require_plain_location.
+
+Theorem C12_require_root_exact_examples :
+  map pattern_climb exact_examples = [1; 1; 1; 2; 2; 2; 1]%nat
+  /\ forallb (fun pat =>
+       match pattern_climb pat with
+       | S n => negb (underb g_cwd (pattern_dir g_base pat ++ ups n) (candidate 63 g_base [46] pat))
+                && underb g_cwd (pattern_root g_base pat) (candidate 63 g_base [46] pat)
+       | O => false
+       end) exact_examples = true.
+Proof. exact pattern_root_exact_examples. Qed.
+Print Assumptions C12_require_root_exact_examples.
 
 (* any load path at all, provided the instantiated part of each candidate has no ".." component *)
 Theorem C12_require_contained_any_path : forall cwd file_path lua_path req p,
@@ -151,16 +241,34 @@ Proof. exact require_variants_refuted. Qed.
 Print Assumptions C12_require_variants_refuted.
 
 (* the whole recursion of _evaluate_require (Model/RequireWalk.v: for every file content, abstracted as the
-   list of require strings per file, every file system, every sane load path, every depth): the sequence of
+   list of require strings per file, every file system, EVERY load path, every depth): the sequence of
    os.path.isfile probes and open() calls satisfies the instance predicate the monitor evaluates on the real
    run - every access lies under the directory of the main file, of a file opened before it, or under a
-   directory their load-path patterns name *)
+   directory their load-path patterns designate (pattern_root) *)
 Theorem C12_require_model_holds : forall requires_of isfile lua_path cwd fuel main,
-  forallb pattern_saneb (split_on 59 lua_path) = true ->
   holds_C12_require cwd lua_path main []
     (map to_event (fst (evaluate_require requires_of isfile lua_path fuel main))) = true.
 Proof. exact require_model_holds. Qed.
 Print Assumptions C12_require_model_holds.
+
+(* for load paths whose patterns have climb 0 (every sane pattern; also ?/?.lua ...) the roots the monitor
+   uses are the requiring files' directories and pattern_dir of the patterns - the predicate it had before the
+   general statement existed *)
+Theorem C12_require_monitor_flat : forall cwd lua_path main explicit tr,
+  forallb pattern_flatb (split_on 59 lua_path) = true ->
+  holds_C12_require cwd lua_path main explicit tr
+  = all_opens_under_growing cwd (require_roots (split_on 59 lua_path)) (require_roots (split_on 59 lua_path) main)
+      (relevant explicit tr).
+Proof. exact holds_require_flat. Qed.
+Print Assumptions C12_require_monitor_flat.
+
+Theorem C12_require_monitor_sane : forall cwd lua_path main explicit tr,
+  forallb pattern_saneb (split_on 59 lua_path) = true ->
+  holds_C12_require cwd lua_path main explicit tr
+  = all_opens_under_growing cwd (require_roots (split_on 59 lua_path)) (require_roots (split_on 59 lua_path) main)
+      (relevant explicit tr).
+Proof. exact holds_require_sane. Qed.
+Print Assumptions C12_require_monitor_sane.
 
 (* the monitors: a trace they accept only touches paths under a root (static roots for
    #include; for require the roots grow with every opened - hence requiring - file) *)
@@ -184,4 +292,25 @@ Example C12_nonvacuous :
   /\ forallb pattern_saneb (split_on 59 [108; 105; 98; 47; 63; 46; 108; 117; 97; 59; 63; 47; 105; 110; 105; 116; 46; 108; 117; 97]) = true
   /\ require_candidates_now r_main T_files_build.default_lua_path [97] =
      [[47; 116; 47; 119; 47; 112; 114; 111; 106; 47; 97]; [47; 116; 47; 119; 47; 112; 114; 111; 106; 47; 97; 46; 108; 117; 97]].
+Proof. repeat split; vm_compute; reflexivity. Qed.
+
+(* non-vacuity of the general statement: climbs of a grid of patterns (0 for the usual ones and for several
+   placeholders without ".."), and a candidate of a two-placeholder pattern with its root
+   ( ?  ?.lua  lib/?.lua  ../lib/?.lua  ?/?.lua  ?/../?.lua  ?/../../x/?.lua  /abs/?.lua  a/?/../../? ) *)
+Example C12_general_nonvacuous :
+  map pattern_climb
+    [[63]; [63; 46; 108; 117; 97]; [108; 105; 98; 47; 63; 46; 108; 117; 97];
+     [46; 46; 47; 108; 105; 98; 47; 63; 46; 108; 117; 97]; [63; 47; 63; 46; 108; 117; 97];
+     [63; 47; 46; 46; 47; 63; 46; 108; 117; 97];
+     [63; 47; 46; 46; 47; 46; 46; 47; 120; 47; 63; 46; 108; 117; 97];
+     [47; 97; 98; 115; 47; 63; 46; 108; 117; 97]; [97; 47; 63; 47; 46; 46; 47; 46; 46; 47; 63]]
+  = [0; 0; 0; 0; 0; 1; 2; 0; 2]%nat
+  /\ require_filter_now [97; 47; 98] = true
+  /\ candidate 63 g_base [97; 47; 98] [63; 47; 46; 46; 47; 63; 46; 108; 117; 97]
+     = [47; 116; 47; 119; 47; 97; 47; 98; 47; 46; 46; 47; 97; 47; 98; 46; 108; 117; 97]   (* /t/w/a/b/../a/b.lua *)
+  /\ pattern_root g_base [63; 47; 46; 46; 47; 63; 46; 108; 117; 97] = [47; 116; 47; 119; 47; 46; 46; 47] (* /t/w/../ *)
+  /\ locate g_cwd (pattern_root g_base [63; 47; 46; 46; 47; 63; 46; 108; 117; 97]) = [[116]]
+  (* ?/../../x/?.lua : a one-component proper name leaves the directory by one level, a two-component one by none *)
+  /\ map (plain_profile [63; 47; 46; 46; 47; 46; 46; 47; 120; 47; 63; 46; 108; 117; 97]) [1; 2; 3]%nat
+     = [(1, 2); (0, 3); (0, 5)]%nat.
 Proof. repeat split; vm_compute; reflexivity. Qed.
